@@ -103,6 +103,17 @@ def _map_inst(job):
     want = grad*_own_chain(m, c)
     if not np.allclose(gin, want, rtol=1e-13, atol=0):
         notes.append("derivative_chain differs from d sigma / d x")
+    # ... at the CURRENT values: the same array object edited in place by a
+    # permutation (sum, shape and identity unchanged), chain rule again
+    xs = x.copy()
+    g1 = np.ones(c.size)
+    mp_.derivative_chain(g1, xs)
+    xs[:] = xs[::-1].copy()
+    g2 = np.ones(c.size)
+    mp_.derivative_chain(g2, xs)
+    if not np.allclose(g2, _own_chain(m, c[::-1]), rtol=1e-13, atol=0):
+        notes.append("derivative_chain after an in-place permutation of the "
+                     "same array is not the derivative at the current values")
     # the derivative of the code's OWN backward map, by central differences
     hstep = 1e-6*np.maximum(np.abs(x), 1e-3)
     fd = (np.asarray(mp_.backward(x + hstep)) -
